@@ -617,6 +617,11 @@ fn one_run(log: &mut EvLog, mlog: &mut Option<EvLog>, seed: u64, thorough: bool,
                 dpm.get_mut(handles[i]).request_diagnostics();
                 log.push(json!({"ev":"UserDiag","p":i + 1,"t":tt}));
             }
+            if rng.gen_bool(0.0015) {
+                // the documentation allows enter_operate() at any time; calling it again must not disturb the cycle
+                dpm.enter_operate();
+                log.push(json!({"ev":"UserOperate","t":tt}));
+            }
             if rng.gen_bool(0.01) {
                 let i = rng.gen_range(0..np);
                 let p = dpm.get_mut(handles[i]);
